@@ -16,14 +16,16 @@ fn c01_enc_lands() {
     kani::assume(o <= isize::MAX as usize - 5);
     kani::assume(t <= isize::MAX as usize);
     let v = generate_branch_to_target_function(o, t);
-    assert!(v.len() == 5 || v.len() == 12, "OBL:C01.enc.len: patch is 5 or 12 bytes");
-    assert!(x86_lands(&v, o) == Some(t), "OBL:C01.enc.lands: the emitted jump lands exactly on the requested address");
     let d = t as i128 - (o as i128 + 5);
     let reach = d >= i32::MIN as i128 && d <= i32::MAX as i128;
-    assert!((v.len() == 5) == reach, "OBL:C01.enc.short-iff-reach: rel32 form exactly when the displacement fits");
     let eff = x86_effect(&v);
-    assert!(eff == Some(0) || eff == Some(W_RAX), "OBL:C13.x86.enc.effect: the jump writes nothing but rax");
-    assert!(v.len() != 5 || eff == Some(0), "OBL:C13.x86.enc.short-pure: the short form writes no register at all");
+    crate::obligations! {
+        (v.len() == 5 || v.len() == 12) => "OBL:C01.enc.len: patch is 5 or 12 bytes",
+        (x86_lands(&v, o) == Some(t)) => "OBL:C01.enc.lands: the emitted jump lands exactly on the requested address",
+        ((v.len() == 5) == reach) => "OBL:C01.enc.short-iff-reach: rel32 form exactly when the displacement fits",
+        (eff == Some(0) || eff == Some(W_RAX)) => "OBL:C13.x86.enc.effect: the jump writes nothing but rax",
+        (v.len() != 5 || eff == Some(0)) => "OBL:C13.x86.enc.short-pure: the short form writes no register at all",
+    }
     kani::cover!(v.len() == 5, "COVER:short-form");
     kani::cover!(v.len() == 12, "COVER:long-form");
     kani::cover!(true, "COVER:end");
